@@ -117,6 +117,12 @@ def unparse(n):
     if k == "CallExpr":
         return "%s(%s)" % (unparse(c[0]), ", ".join(unparse(a) for a in c[1:]))
     if k in ("BinaryOperator", "CompoundAssignOperator"):
+        # canonical orientation of order comparisons: `a > b` is printed as `(b < a)`, so that rules comparing condition
+        # text do not depend on which way round a comparison was written
+        if n.op == ">":
+            return "(%s < %s)" % (unparse(c[1]), unparse(c[0]))
+        if n.op == ">=":
+            return "(%s <= %s)" % (unparse(c[1]), unparse(c[0]))
         return "(%s %s %s)" % (unparse(c[0]), n.op, unparse(c[1]))
     if k == "UnaryOperator":
         if n.get("postfix"):
@@ -421,6 +427,99 @@ class Func:
         return None
 
 
+# ---------------------------------------------------------------------------
+# Local-name normalisation.  Rules are written against the names parameters and block-scope variables have in the pinned
+# tree.  tables/localnames.json records, per function, those reference names by position (parameters) and by
+# (type, ordinal) (locals).  When a later tree calls a local differently, the loader maps it back to the reference name,
+# so that renaming a variable -- an edit that cannot change behaviour -- never changes a verdict.  On the pinned tree the
+# mapping is the identity.  Functions whose declarations changed shape are left as they are.
+# ---------------------------------------------------------------------------
+_LOCALNAMES = None
+_LOCAL_DK = ("local", "param", "static_local")
+
+
+def _norm_type(t):
+    return " ".join((t or "").replace("const ", "").replace("restrict", "").replace("*", " * ").split())
+
+
+def local_decls(fd):
+    """(parameter names, [(type, name)] of block-scope variables in source order, de-duplicated by name)."""
+    params = [p.get("name") for p in fd.get("params", [])]
+    out, seen = [], set()
+    st = [fd.get("body")]
+    while st:
+        n = st.pop()
+        if not isinstance(n, dict):
+            continue
+        if n.get("k") == "VarDecl" and n.get("name") and n.get("dk") != "global" and n["name"] not in seen:
+            seen.add(n["name"])
+            out.append((_norm_type(n.get("ty")), n["name"]))
+        for ch in reversed(n.get("c", [])):
+            st.append(ch)
+    return params, out
+
+
+def _load_localnames():
+    global _LOCALNAMES
+    if _LOCALNAMES is None:
+        p = os.path.join(os.path.dirname(os.path.dirname(os.path.abspath(__file__))), "tables", "localnames.json")
+        if os.environ.get("ORC_NO_NORMALISE") or not os.path.exists(p):
+            _LOCALNAMES = {}
+        else:
+            with open(p) as f:
+                _LOCALNAMES = json.load(f)
+    return _LOCALNAMES
+
+
+def normalise_locals(fd):
+    tab = _load_localnames()
+    if not tab or not fd.get("body"):
+        return
+    key = "%s::%s" % (relpath(fd.get("file", "")), fd.get("name"))
+    ref = tab.get(key)
+    if not ref:
+        return
+    params, locs = local_decls(fd)
+    m = {}
+    if len(params) == len(ref["params"]):
+        for a, r in zip(params, ref["params"]):
+            if a and r:
+                m[a] = r
+    by_type_a, by_type_r = {}, {}
+    for t, n in locs:
+        by_type_a.setdefault(t, []).append(n)
+    for t, n in ref["locals"]:
+        by_type_r.setdefault(t, []).append(n)
+    for t, names in by_type_a.items():
+        rn = by_type_r.get(t)
+        if rn and len(rn) == len(names):
+            for a, r in zip(names, rn):
+                m.setdefault(a, r)
+    m = {a: r for a, r in m.items() if a != r}
+    if not m:
+        return
+    allnames = set(params) | {n for _, n in locs}
+    targets = list(m.values())
+    if len(set(targets)) != len(targets) or any(r in allnames and r not in m for r in targets):
+        return          # not injective / would capture another variable: leave this function untouched
+    for p_ in fd.get("params", []):
+        if p_.get("name") in m:
+            p_["name"] = m[p_["name"]]
+    st = [fd.get("body")]
+    while st:
+        n = st.pop()
+        if not isinstance(n, dict):
+            continue
+        k = n.get("k")
+        if k == "VarDecl" and n.get("dk") != "global" and n.get("name") in m:
+            n["name"] = m[n["name"]]
+        elif k == "DeclRefExpr" and n.get("dk") in _LOCAL_DK and n.get("name") in m:
+            n["name"] = m[n["name"]]
+        for ch in n.get("c", []):
+            st.append(ch)
+    fd["renamed_locals"] = m
+
+
 class TU:
     def __init__(self, path):
         with open(path) as f:
@@ -437,6 +536,7 @@ class TU:
         self.functions = []
         self.fn = {}
         for fd in d["functions"]:
+            normalise_locals(fd)
             f = Func(fd, self)
             self.functions.append(f)
             # header-defined inline helpers appear in many TUs; main-file wins
@@ -619,3 +719,49 @@ def simplify_init(x):
     if "d" in x:
         return x["d"]
     return ("x", x.get("x"))
+
+
+class Locals:
+    """Names of a function's parameters and block-scope variables, looked up by position or type, so that rules never
+    depend on how a local happens to be called."""
+
+    def __init__(self, func):
+        self.f = func
+        self.params = [p["name"] for p in func.params]
+        self.decls = []            # (name, type) in declaration order, parameters first
+        for p in func.params:
+            self.decls.append((p["name"], self._norm(p.get("ty", ""))))
+        for n in func.walk():
+            if n.k == "VarDecl" and n.name and n.get("dk") != "global":
+                self.decls.append((n.name, self._norm(n.get("ty") or "")))
+
+    @staticmethod
+    def _norm(t):
+        return " ".join(t.replace("const ", "").replace("restrict", "").replace("*", " * ").split())
+
+    def param(self, i):
+        if i >= len(self.params):
+            raise AnalysisBroken("%s has no parameter #%d" % (self.f.name, i))
+        return self.params[i]
+
+    def of_type(self, ty):
+        ty = self._norm(ty)
+        return [n for n, t in self.decls if t == ty]
+
+    def one(self, ty, what=""):
+        c = self.of_type(ty)
+        if len(c) != 1:
+            raise AnalysisBroken("%s: expected exactly one variable of type `%s`%s, found %s" % (self.f.name, ty, " (%s)" % what if what else "", c))
+        return c[0]
+
+    def defined_by(self, pred):
+        """names of locals one of whose definitions (initialiser or plain assignment) satisfies pred(expr)."""
+        out = []
+        for n in self.f.walk():
+            if n.k == "VarDecl" and n.c and n.c[0] is not None and pred(n.c[0]) and n.name not in out:
+                out.append(n.name)
+            elif n.k == "BinaryOperator" and n.op == "=":
+                l = strip_casts(n.c[0])
+                if l is not None and l.k == "DeclRefExpr" and l.get("dk") in ("local", "param") and pred(n.c[1]) and l.name not in out:
+                    out.append(l.name)
+        return out
